@@ -303,6 +303,7 @@ func c08Case(col *Collector, s c08Spec, tag string) {
 }
 
 func runC08(col *Collector, tier string, seed int64) {
+	withEnvCase(col)
 	rng := rand.New(rand.NewSource(seed))
 	col.res.Rule = "2..6 stages sharing one task, each with its own subset of env names {A,B}, variables {x,y} and dir override over task-level settings, in every dependency arrangement on <=4 stages (parallel / chain / mixed; all DAGs), " +
 		"built as Stage values and through internal/config (buildPipeline), pipeline run 1-2 times with the real runner, followed by a direct run of the task; every execution prints what it sees. non-trivial = all; distinct = distinct specifications"
@@ -392,4 +393,35 @@ func readWhoTrace(path string) []string {
 		}
 	}
 	return out
+}
+
+// the exported Task.WithEnv (used by API clients to give one task an extra variable): a variable set on a copy of
+// a task, or on one of two tasks built over the same env container, must not appear in the other
+func withEnvCase(col *Collector) {
+	trace := newTracePath()
+	defer os.Remove(trace)
+	cs := Case{Replay: "Task.WithEnv on a per-stage style copy of a task, then a run of the original", Tags: []string{"with-env-api"}, NonTrivial: true}
+	shared := variables.FromMap(map[string]string{"BASE": "b"})
+	orig := task.FromCommands(fmt.Sprintf("echo \"orig EXTRA=[${EXTRA:-}] BASE=[$BASE]\" >> %s", trace))
+	orig.Name = "orig"
+	orig.Env = shared
+	cp := *orig // what the scheduler does for a stage
+	cp.Commands = []string{fmt.Sprintf("echo \"copy EXTRA=[${EXTRA:-}] BASE=[$BASE]\" >> %s", trace)}
+	cp.WithEnv("EXTRA", "only-for-the-copy")
+	r, err := runner.NewTaskRunner()
+	if err != nil {
+		cs.Fail, cs.Sig = err.Error(), "c08-crash"
+		col.Add(cs)
+		return
+	}
+	r.Stdout, r.Stderr = devNull{}, devNull{}
+	r.Run(&cp)
+	r.Run(orig)
+	got := strings.Join(readTrace(trace), " | ")
+	want := "copy EXTRA=[only-for-the-copy] BASE=[b] | orig EXTRA=[] BASE=[b]"
+	cs.Impl = got
+	if got != want {
+		cs.Fail, cs.Sig = fmt.Sprintf("executions saw [%s], expected [%s]", got, want), "c08-leak"
+	}
+	col.Add(cs)
 }
